@@ -36,11 +36,15 @@ REQUIRED_OBS = {'superdicts_checked': 40, 'eval:C29:state-defects': 100, 'eval:C
                 'eval:C29:mapping-complete': 20, 'warn_required_cells': 10, 'warn_forbidden_cells': 5,
                 'interstitial_dicts': 10, 'vacancy_dicts': 10, 'eval:C29:warn-classes': 10, 'skewed_cells_with_hidden_image': 2}
 CASE_TIMEOUT = 600
-MAXSITES = {'quick': 130, 'thorough': 260}
+LIMITS = ['3-D crystals only (Supercell takes 3x3 matrices); at most 130 (quick) / 200 (thorough) sites per supercell',
+          'Nthermo <= 2, at most 420 kinetic states, at most 40 jumps per vacancy network',
+          'ties (states on the half-cell boundary or with an equally long image) and cells in which two defects of one tag coincide are counted, not judged',
+          'known finding F16 (half cell is not a minimum-image test) is exercised deliberately in every fifth case']
+MAXSITES = {'quick': 130, 'thorough': 200}
 
 
 def cases(tier, seed):
-    n = 48 if tier == 'quick' else 480
+    n = 48 if tier == 'quick' else 320
     return [{'seed': seed, 'idx': i, 'hashseed': i % 5, 'tier': tier, 'kind': 'vacancy' if i % 5 < 3 else 'interstitial'}
             for i in range(n)]
 
